@@ -628,7 +628,17 @@ class Oracles:
                             self.violate("C10", "granted-item-not-taken", self.nlabel(nid), f"{nid} has a free worker and a granted, unused retrieval reservation at end of instant {now}")
                         if now > setup and not gtoks:
                             self.violate("C10", "idle-without-request", self.nlabel(nid), f"{nid} has a free worker but no outstanding retrieval request at end of instant {now}")
-                        if self.pol(nid, "in") == "FIRST_AVAILABLE" and now > setup:
+                        pin = self.pol(nid, "in")
+                        allowed = None      # the one in-edge a deterministic policy allows next (single worker: one request per pulled item)
+                        cidx = nr.spec.get("in_sel")
+                        if pin == "const" and isinstance(cidx, int) and 0 <= cidx < len(in_edges):
+                            allowed = in_edges[cidx]
+                        elif pin == "ROUND_ROBIN" and nr.spec.get("wc", 1) == 1 and len(set(in_edges)) == len(in_edges):
+                            allowed = in_edges[len(nr.life) % len(in_edges)]
+                        if allowed is not None and now > setup and len(run.edge_ready(allowed)) - self.granted_unused(allowed, "g") > 0:
+                            self.violate("C10", "available-item-not-taken", self.nlabel(nid) + "," + self.elabel(allowed) + "," + str(pin),
+                                         f"{nid} has a free worker at end of instant {now} while in-edge {allowed}, the one its policy {pin} allows next, offers an unreserved item")
+                        if pin == "FIRST_AVAILABLE" and now > setup:
                             for e in in_edges:
                                 avail = len(run.edge_ready(e)) if self.erec[e].type != "buffer" or True else 0
                                 if avail - self.granted_unused(e, "g") > 0:
